@@ -2,10 +2,118 @@
 meaning-preserving rewrites of the document (harness/xmlrewrite.py), for both handlers.
 
 Oracle on the real code; theorems over Model/Parser.v in Properties/C09.v (when built)."""
+import concurrent.futures as cf
 import os
 
+import common
 from common import Check, run_impl, standard_proof_step, TRUSTED_COMMON, ROOT
 import genmodels as G
+
+IMPORTS = ("From XV Require Import Base.Str Model.Bind Model.Parser Model.ParserCorr Model.Reader Model.ReaderCorr "
+           "Model.ParserInvCorr Proofs.ParserInvWs Proofs.ParserInvAttrs.")
+GUARD_DEFS = """
+Definition ws_guard (x : c09_case) : bool :=
+  let '(cfg, t, u, root, e1, e2, _, _) := x in
+  ws_variant_n (length e1) cfg (conv_of_table t) u root init_state e1 e2.
+Definition attrs_guard (x : c09_case) : bool :=
+  let '(_, _, u, _, _, _, _, _) := x in universe_ok u && perm_guard x.
+(* Python equality of the two observed objects: dicts compare as finite maps (value_eqb_dict is proved sound
+   w.r.t. value_equiv in Proofs/ParserInvAttrs.v); converter warnings as multisets *)
+Definition obs_same_dict (x : c09_case) : bool :=
+  let '(_, _, _, _, _, _, o1, o2) := x in
+  match o1, o2 with
+  | Ok v ws, Ok v' ws' => value_eqb_dict v v' && warnings_permb (filter is_conv_warning ws) (filter is_conv_warning ws')
+  | Err k, Err k' => errkind_eqb k k'
+  | _, _ => false
+  end.
+"""
+
+
+def guard_jobs(ck):
+    r = ck.rng
+    jobs = [{"id": 0, "seed": r.randrange(1 << 30), "model": {"c08": "any_attrs"}}]
+    for _ in range(ck.n(30, 300)):
+        k = r.random()
+        sl = ["F1"] if k < 0.35 else (["F1", "F2"] if k < 0.6 else ["F1", "F2", "F3"])
+        prims = [p for p in G.PRIMS if p != "QName"]
+        jobs.append({"id": len(jobs), "seed": r.randrange(1 << 30), "model": {"gen": {"slices": sl, "prims": prims}}, "n": 2})
+    return jobs
+
+
+def run_guard_jobs(jobs, chunk=8, timeout=1500):
+    chunks = [c for c in (jobs[i::chunk] for i in range(chunk)) if c]
+
+    def one(c):
+        try:
+            return run_impl("impl_c09.py", {"jobs": c}, timeout=timeout)
+        except Exception as e:  # noqa
+            return {"dt_table": None, "jobs": [{"id": j["id"], "seed": j["seed"], "model": j["model"], "cases": [],
+                                                "crashed": f"driver process failed: {e!r}"[:3000]} for j in c]}
+    with cf.ThreadPoolExecutor(max_workers=len(chunks) or 1) as ex:
+        outs = list(ex.map(one, chunks))
+    tables = [o["dt_table"] for o in outs if o.get("dt_table")]
+    res = {"dt_table": tables[0] if tables else "(@nil (qname * option (ptype * option str * option ptype)))", "jobs": []}
+    for o in outs:
+        res["jobs"] += o["jobs"]
+    res["jobs"].sort(key=lambda j: j["id"])
+    return res
+
+
+def guard_check(ck, fut):
+    """the hypotheses of the C09 theorems evaluated IN COQ on (document, rewritten document) pairs of real recorded
+    event streams, against the observed outcomes; the model's verdict on both streams (correspondence)"""
+    res = fut.result()
+    defs = [f"Definition dt_table := {res['dt_table']}."]
+    terms, meta = [], []
+    stats = {"jobs": len(res["jobs"]), "unsupported": 0, "by_kind": {}}
+    for j in res["jobs"]:
+        if j.get("crashed"):
+            ck.failure("harness-driver-crashed", f"impl_c09.py crashed on {j['model']} seed {j['seed']}: {j['crashed'][-400:]}",
+                       {"job": {"seed": j["seed"], "model": j["model"]}})
+            continue
+        if j.get("skipped") or not j.get("universe") or not j.get("conv"):
+            continue
+        defs.append(f"Definition u_{j['id']} : universe := {j['universe']}.")
+        defs.append(f"Definition tbl_{j['id']} : conv_table := {j['conv']}.")
+        defs.append(f"Definition nd_{j['id']} : list (cls * list str) := {j['nodefault']}.")
+        for c in j["cases"]:
+            if c.get("term"):
+                terms.append(c["term"])
+                meta.append((j, c))
+            else:
+                stats["unsupported"] += 1
+    checks = {k: k for k in ["model_agrees", "model_same", "obs_same", "obs_same_dict", "ws_guard", "maps_guard", "attrs_guard"]}
+    bad = common.coq_bad_matrix("c09_guard", IMPORTS, "\n".join(defs) + GUARD_DEFS, "c09_case", checks, terms)
+    badsets = {k: set(v) for k, v in bad.items()}
+    guard_of = {"ws": "ws_guard", "redecl": "maps_guard", "attrs": "attrs_guard"}
+    for i, (j, c) in enumerate(meta):
+        kind = c["kind"]
+        st = stats["by_kind"].setdefault(kind, {"pairs": 0, "guard_true": 0, "streams_differ": 0, "outcomes_differ": 0})
+        st["pairs"] += 1
+        st["streams_differ"] += not c.get("same_events")
+        rp = {"job": {"seed": j["seed"], "model": j["model"]}, "source": j.get("source"), "doc": c["doc"], "doc2": c["doc2"],
+              "kind": kind, "summary": c["summary"]}
+        if i in badsets["model_agrees"]:
+            ck.failure("corr-parser-c09", f"Model/Parser.v and the implementation disagree on a ({kind}) stream pair: {c['summary']}", rp)
+        same = (i not in badsets["obs_same_dict"]) if kind == "attrs" else (i not in badsets["obs_same"])
+        st["outcomes_differ"] += not same
+        if kind == "f3":
+            if not same:
+                cls = "rewrite-prefix-renaming-any-attribute" if i in badsets["model_same"] else "rewrite-prefix-renaming-unexplained"
+                ck.failure(cls, f"renaming / dropping a namespace prefix changes the parsed object: {c['doc']!r} vs {c['doc2']!r}: "
+                                f"{c['summary']['a']['value']} vs {c['summary']['b']['value']}", rp)
+            continue
+        g = i not in badsets[guard_of[kind]]
+        st["guard_true"] += g
+        if not same:
+            cls = f"theorem-contradicted-{kind}" if g else f"rewrite-{kind}-outside-guard"
+            ck.failure(cls, f"({kind}) rewrite changes the parsed object (hypothesis of the theorem {'holds' if g else 'does not hold'} on the "
+                            f"recorded streams): {c['summary']}", rp)
+        elif not g and kind in ("ws", "redecl", "attrs"):
+            ck.failure(f"guard-false-on-{kind}-rewrite", f"the hypothesis of the ({kind}) theorem does not hold on a rewrite the oracle applies: "
+                                                         f"{c['doc'][:200]!r} vs {c['doc2'][:200]!r}", rp)
+    stats["pairs"] = len(terms)
+    return stats
 
 NOQ = [p for p in G.PRIMS if p != "QName"]
 NONSTR = [p for p in G.PRIMS if p not in ("QName", "str", "enum")]
@@ -15,8 +123,13 @@ def run(ck: Check):
     ck.level = "proof"
     r = ck.rng
     obligations, discharged, axioms = 0, 0, []
+    pool = cf.ThreadPoolExecutor(max_workers=1)
+    fut = pool.submit(run_guard_jobs, guard_jobs(ck))          # the implementation runs while the proofs are checked
+    extra = ["Model/ParserInvCorr.vo", "Proofs/ParserInvWs.vo", "Proofs/ParserInvAttrs.vo"]
     if os.path.exists(os.path.join(ROOT, "coq", "Properties", "C09.v")):
-        obligations, discharged, axioms = standard_proof_step(ck)
+        obligations, discharged, axioms = standard_proof_step(ck, extra_targets=extra)
+    else:
+        common.make(extra)
     jobs = []
     for k in range(ck.n(300, 3000)):
         mode = r.choice(["general", "general", "element_only", "value_ws"])
@@ -55,9 +168,26 @@ def run(ck: Check):
                     cls = "rewrite-" + ("-".join(sorted(tr["kinds"])) if len(tr["kinds"]) <= 2 else "multi") + "-" + tr["handler"]
                     ck.failure(cls, f"parse changed under rewrite {tr['kinds']} with the {tr['handler']} handler: {tr.get('why')}",
                                {"model_src": job["src"], "instance": job["instances"][case["i"]], "case": case, "trial": tr})
-    ck.cov["evaluations"] = n
-    ck.cov["distinct_nontrivial"] = n
-    ck.cov["rule"] = "each evaluation = one (model, instance, composition of rewrite kinds, handler); counts per rewrite kind in input_distribution"
-    ck.cov["input_distribution"] = stats
+    try:
+        gstats = guard_check(ck, fut)
+    except common.BuildError as e:
+        ck.broken_obligation("guard-check:" + e.target, e.log)
+        gstats = {"pairs": 0}
+    ck.cov["evaluations"] = n + gstats["pairs"]
+    ck.cov["distinct_nontrivial"] = n + gstats["pairs"]
+    ck.cov["rule"] = ("oracle: one evaluation = (model, instance, composition of rewrite kinds, handler); guard check: one evaluation = "
+                      "(model, document, rewritten document): both recorded event streams, the theorem hypothesis computed in Coq, the "
+                      "model's outcome on both streams and the two observed outcomes")
+    ck.cov["input_distribution"] = dict(stats, guard_check=gstats)
     ck.cov["samples"] = [{"case": jobs[0]["cases"][0]}]
-    return ck.finish(obligations=obligations, discharged=discharged, checker_cmd="coqc", trusted_base=TRUSTED_COMMON)
+    return ck.finish(obligations=obligations, discharged=discharged,
+                     checker_cmd="make -C coq Properties/C09.vo && coqc -Q coq XV coq/Properties/C09.v (Print Assumptions)",
+                     trusted_base=TRUSTED_COMMON + [
+                         "everything below the infoset (comments, PIs, CDATA, character references, encodings, XInclude, attribute-value "
+                         "normalisation) is the tokenisers' job: oracle only (harness/xmlrewrite.py rewrites through both real handlers)",
+                         "Model/Parser.v is tied to NodeParser by the parser correspondence of C10/C15 and by model_agrees here",
+                         "primitive converter: recorded table of the real run in the case files; Section hypotheses in the theorems "
+                         "(conv_lookup_only, reads_alike) are discharged for property C05's converter models",
+                         "axioms: " + (", ".join(axioms) or "none (all theorems closed under the global context)")],
+                     assumptions=["element and attribute names in parser events are non-empty; attribute names of one element are unique",
+                                  "one XmlMeta per class (metadata cache keyed by class: property C14's subject)"])
